@@ -390,7 +390,7 @@ def pexpr_tok(n):
     if isinstance(n, ast.Name):
         return "n " + s_tok(n.id)
     if isinstance(n, ast.Constant):
-        return "c %s %d" % (s_tok(repr(n.value)), 1 if isinstance(n.value, (int, float)) else 2 if isinstance(n.value, complex) else 0)
+        return "c %s %d" % (s_tok(ascii(n.value)), 1 if isinstance(n.value, (int, float)) else 2 if isinstance(n.value, complex) else 0)
     if isinstance(n, ast.NamedExpr):
         return "named %s %s" % (pexpr_tok(n.target), pexpr_tok(n.value))
     if isinstance(n, ast.Attribute):
